@@ -297,8 +297,13 @@ class Check:
             axioms = [l.strip().split(" ")[0] for l in m.group(1).splitlines() if l.strip()]
         bad_flags = [k for k in ("type-in-type", "unsafe (co)fixpoints", "positivity is assumed")
                      if re.search(re.escape(k) + r":(?!\s*<none>)", summ)]
-        extra = [a for a in axioms if a not in allowed and a.split(".")[-1] not in {x.split(".")[-1] for x in allowed}]
-        self.notes.setdefault("coqchk", []).append({"file": dst.name, "exit": rc, "axioms": axioms, "flags": bad_flags})
+        # coqchk -o lists the axioms of EVERY loaded library, used or not (e.g. Classical_Prop.classic as
+        # soon as Coq.Reals is loaded): axioms declared by the standard library are recorded; only an
+        # axiom declared outside it (ours, or an add-on library's) fails the check.  What each property
+        # theorem actually depends on is what Print Assumptions reports (compared with the allowed list).
+        extra = [a for a in axioms if not a.startswith("Coq.")]
+        self.notes.setdefault("coqchk", []).append({"file": dst.name, "exit": rc, "axioms_of_loaded_libraries": axioms,
+                                                    "non_stdlib_axioms": extra, "flags": bad_flags})
         if rc != 0 or bad_flags or extra:
             res.ok = False
             res.failed = "coqchk(%s)" % dst.name
